@@ -297,6 +297,13 @@ impl C13 {
                         return Err(format!("{what}: after the failed call the key maps to {:?}, neither its old nor its new state", got));
                     }
                 }
+                if let Op::Write(w) = &step.op {
+                    if (w.aged_hours != 0 || w.crowd > 0) && w.streamed() {
+                        let other = crate::exec::other_blob(ctx, w.blob);
+                        let o = (Algo::Sha256, crate::blob::hexs(&crate::blob::digest_raw(Algo::Sha256, &other)));
+                        model.adopt_content(ctx, &o);
+                    }
+                }
                 for a in op_addr(ctx, model, &step.op) {
                     // a write or link never takes valid content away that was there before it
                     // (other keys may hold it); only the removals may
